@@ -134,8 +134,8 @@ def target_spec(name):
         units = [(f"{S}/conc_olc/olc_main.cpp", "olc_main.o", fl)]
         units += [(f"{REPO}/{f}", f.replace(".cpp", ".o"), fl) for f in REPO_LIB]
         return "g++", units, SAN + ["-pthread"], ["sched", "conc_olc"]
-    if name == "qsbr":
-        fl = BASE + HOOKS + SAN + ["-O1"]
+    if name in ("qsbr", "qsbr_stats"):
+        fl = BASE + HOOKS + SAN + ["-O1"] + (STATS if name == "qsbr_stats" else [])
         units = [(f"{S}/conc_qsbr/qsbr_main.cpp", "qsbr_main.o", fl)]
         units += [(f"{REPO}/{f}", f.replace(".cpp", ".o"), fl) for f in ["qsbr.cpp", "qsbr_ptr.cpp"]]
         return "g++", units, SAN + ["-pthread"], ["sched", "conc_qsbr"]
@@ -903,7 +903,10 @@ QSBR_RULES = {
 
 def check_qsbr(pid, tier, seed):
     t0 = time.time()
-    exe = build("qsbr")
+    with cf.ThreadPoolExecutor(max_workers=2) as ex:
+        f1 = ex.submit(build, "qsbr")
+        f2 = ex.submit(build, "qsbr_stats")   # statistics compiled in (other code paths in quiescent / unregister)
+        exe, exe_stats = f1.result(), f2.result()
     res = Result()
     nrep = sched_replays(pid, exe, res)
     outdir = os.path.join(WORK, "run", pid)
@@ -917,14 +920,16 @@ def check_qsbr(pid, tier, seed):
                   "--pct", "100", "--rand", "100"] for i in range(NCPU - 2)]
         plans += [["--seed", str(seed * 1000 + 100 + i), "--programs", "12", "--dfs-p", "3", "--dfs-cap", "1500000",
                    "--pct", "0", "--rand", "0"] for i in range(2)]
+    plans = [(["--exe", exe_stats] + pl) if i % 4 == 3 else pl for i, pl in enumerate(plans)]
     run_sched_workers(pid, exe, plans, outdir, res)
     counters, distinct, samples = merge_stats(sched_stats_files(outdir, len(plans)))
     cov = sched_coverage(pid, counters, distinct, samples, QSBR_RULES[pid], res, nrep)
+    cov["harness_builds"] = "12 workers: statistics compiled out; 4 workers: statistics compiled in (both ASan+UBSan+assertions)"
     cov["preemption_bound"] = "1-2 (quick), 2-3 (thorough)"
     write_evidence(pid, tier, seed, "exploration", cov, time.time() - t0, len(res.violations),
                    ["sequential consistency at the granularity of one hooked access of the QSBR state word and "
                     "orphan lists", "thread start/exit are exercised as resume/pause (the same register_thread / "
-                    "unregister_thread code)", "statistics compiled out in this harness build"])
+                    "unregister_thread code)", "a quarter of the workers use a harness build with statistics compiled in"])
     return finish(pid, res)
 
 
@@ -1412,7 +1417,7 @@ def main():
     a = ap.parse_args()
     os.makedirs(WORK, exist_ok=True)
     if a.build_all:
-        for t in ["seq", "fuzz_seq", "enc_fast", "enc_san", "fuzz_enc", "lock", "qsbr", "olc", "olc_nd", "qsbr_fault", "qp_dbg", "qp_ndbg", "mx", "mx_tsan"] + [f"cfgx_{i}" for i in range(16)]:
+        for t in ["seq", "fuzz_seq", "enc_fast", "enc_san", "fuzz_enc", "lock", "qsbr", "qsbr_stats", "olc", "olc_nd", "qsbr_fault", "qp_dbg", "qp_ndbg", "mx", "mx_tsan"] + [f"cfgx_{i}" for i in range(16)]:
             build(t)
         return 0
     seed = a.seed if a.seed is not None else int(os.environ.get("VERIF_SEED", "1") or 1)
